@@ -507,7 +507,7 @@ func buildC19(tier string) *core.Plan {
 		}}
 
 	return &core.Plan{
-		Spaces: []core.Space{stateless, bfs, model, c19FreshSpace()},
+		Spaces: []core.Space{stateless, bfs, model, c19FreshSpace(), c19OutputCallsSpace()},
 		Rule: "every history over {4 template merges, MergeFileLayers, Documents, Output(json), Output(yaml), OutputDocuments, OutputToWriter}: all histories up to the stateless length without de-duplication, " +
 			"and a breadth-first search up to length 8 / 3 merges de-duplicated on a reflective dump of the whole Parser (unexported fields, pointer sharing). non-trivial = a history with at least one merge and one observation",
 		Assumptions: []string{"the never-observed reference is the same implementation on a fresh parser given only the merges (differential), plus refStream for Documents()",
